@@ -726,7 +726,21 @@ def rule_r6(prog, res) -> None:
                             continue
                         if (a_, b_) not in ((0, -1), (0, 1)):
                             res.violation("C11.R6", w, ev.node, f"the stored values are `{unparse(y)[:60]}`: the axis moved to the end is not the bin axis of the selection — the rows of the stored values no longer correspond to the rows of the pair list, counts are read back at other pairs / bins", key_extra="sparse-values-axis")
-            if len(using) >= 2 and not masked:
+            # … and by its components in the same roles: where the components of the selection are used one by one, each
+            # stored array uses the first as the first patch index and the second as the second (`[i, i]` stores the
+            # diagonal, `[j, i]` the transposed pair)
+            comp_bad = None
+            for ev, d in using:
+                comps = []
+                for y in ast.walk(d):
+                    if isinstance(y, ast.Subscript) and unparse(y.value) == sel_txt and isinstance(y.slice, ast.Constant) and isinstance(y.slice.value, int):
+                        comps.append((getattr(y, "col_offset", 0), y.slice.value))
+                order = [k_ for _o, k_ in comps]  # ast.walk is breadth-first over one expression: siblings keep their order
+                if order and order not in ([0, 1], [-2, -1]):
+                    comp_bad = (ev, order)
+            if comp_bad is not None:
+                res.violation("C11.R6", w, comp_bad[0].node, f"`{unparse(comp_bad[0].expr.args[0]) if comp_bad[0].expr.args else '?'}` is built from the components {comp_bad[1]} of the selection {sel_txt[:40]} instead of (first, second): the stored pair list / values describe other patch pairs than the non-zero ones, counts are read back at the wrong place", key_extra="sparse-selection-components")
+            elif len(using) >= 2 and not masked:
                 res.ok("C11.R6", res.site(w, "pair/value order"), "the pair list and the values are selected by the same index arrays")
             elif masked and using:
                 res.violation(
@@ -741,6 +755,30 @@ def rule_r6(prog, res) -> None:
                 raise AnalysisError(f"C11.R6: cannot relate the stored pair list and values to one selection in {w.short}")
     if n < 1:
         raise AnalysisError("C11.R6: no sparse (nonzero-mask) HDF5 writer found")
+    # the reader puts row k back at pair k: the two patch indices handed to set_patch_pair are the first and the second
+    # entry of ONE stored pair, in this order, on the current and on the legacy arm
+    k = 0
+    for ci in prog.classes:
+        r = ci.methods.get("from_hdf")
+        if r is None or r.is_abstract:
+            continue  # (the call may sit in a private helper of the reader: decided on the inlined paths)
+        res.touch(r)
+        for legacy in (False, True):
+            for p in _hdf_paths(prog, r, legacy):
+                for ev in p.calls("set_patch_pair"):
+                    if len(ev.expr.args) < 3:
+                        continue
+                    a, b = (symx.strip_wrappers(x) for x in ev.expr.args[:2])
+                    k += 1
+                    ok_ = isinstance(a, ast.Subscript) and isinstance(b, ast.Subscript) and unparse(a.value) == unparse(b.value) and isinstance(a.slice, ast.Constant) and isinstance(b.slice, ast.Constant) and (a.slice.value, b.slice.value) in ((0, 1), (-2, -1))
+                    if ok_:
+                        res.ok("C11.R6", res.site(r, f"set_patch_pair ({'legacy' if legacy else 'current'})"), "patch indices are entry 0 and entry 1 of one stored pair")
+                    elif isinstance(a, ast.Subscript) and isinstance(b, ast.Subscript) and unparse(a.value) == unparse(b.value):
+                        res.violation("C11.R6", r, ev.node, f"{ci.name}.from_hdf stores the counts of a pair at `[{unparse(a.slice)}]`, `[{unparse(b.slice)}]` of the stored pair instead of at (first, second): counts come back on the diagonal / transposed", key_extra="sparse-reader-indices")
+                    else:
+                        raise AnalysisError(f"C11.R6: patch indices `{unparse(a)[:40]}`, `{unparse(b)[:40]}` handed to set_patch_pair in {r.short} not recognised as entries of a stored pair")
+    if k < 2:
+        raise AnalysisError(f"C11.R6: only {k} set_patch_pair call(s) found in HDF5 readers (current and legacy arm), minimum 2")
 
 
 def rule_r7(prog, res) -> None:
@@ -1011,6 +1049,89 @@ def rule_r12(prog, res) -> None:
         raise AnalysisError(f"C11.R12: only {n} file writers found, minimum 4")
 
 
+def rule_r13(prog, res) -> None:
+    """members travel under their own name: when the HDF5 writer of a class stores component A of the object under the
+    name n and the reader of the same class puts what it reads from n into component B, then A is B — decided on the
+    symbolic stores of both (writer: the `data=` of create_dataset / the receiver of a nested to_hdf; reader: the
+    attribute stored to, or the constructor parameter bound, on the current-format arm).  Only a cross-wiring is
+    reported (B is itself written, or A itself read, under another name): a parameter that is merely named differently
+    from the attribute it initialises is not"""
+    from .. import symx
+
+    n = 0
+    for ci in prog.classes:
+        w, r = ci.methods.get("to_hdf"), ci.methods.get("from_hdf")
+        if w is None or r is None or w.is_abstract:
+            continue
+        res.touch(w)
+        res.touch(r)
+        me = w.param_names()[0]
+        src = r.param_names()[1] if len(r.param_names()) > 1 else "source"
+
+        def own_attrs(e) -> set:
+            return {y.attr for y in ast.walk(e) if isinstance(y, ast.Attribute) and isinstance(y.value, ast.Name) and y.value.id == me}
+
+        def names_read(e) -> set:
+            out = set()
+            for y in ast.walk(e):
+                if isinstance(y, ast.Subscript) and isinstance(y.value, ast.Name) and y.value.id == src:
+                    vals = _name_values(prog, r, y.slice)
+                    if vals and len(vals) == 1:
+                        out |= vals
+                    else:
+                        out.add(None)
+            return out
+
+        W: dict = {}
+        for p in _hdf_paths(prog, w, None):
+            for ev in p.calls():
+                c = ev.expr
+                if not isinstance(c.func, ast.Attribute):
+                    continue
+                if c.func.attr in ("create_dataset", "require_dataset") and c.args:
+                    data = kwarg(c, "data") or (c.args[1] if len(c.args) > 1 else None)
+                    vals = _name_values(prog, w, c.args[0])
+                    if data is not None and vals and len(vals) == 1 and len(own_attrs(data)) == 1:
+                        W.setdefault(next(iter(vals)), set()).update(own_attrs(data))
+                elif c.func.attr == "to_hdf" and c.args and isinstance(c.args[0], ast.Call) and isinstance(c.args[0].func, ast.Attribute) and c.args[0].func.attr in ("create_group", "require_group") and c.args[0].args:
+                    vals = _name_values(prog, w, c.args[0].args[0])
+                    if vals and len(vals) == 1 and len(own_attrs(c.func.value)) == 1:
+                        W.setdefault(next(iter(vals)), set()).update(own_attrs(c.func.value))
+        T: dict = {}
+        for p in _hdf_paths(prog, r, False):
+            if p.outcome != "return":
+                continue
+            for k, v in p.store.items():
+                if isinstance(k, str) and "." in k and isinstance(v, ast.AST):
+                    nr = names_read(v)
+                    if len(nr) == 1 and None not in nr:
+                        T.setdefault(next(iter(nr)), set()).add(k.rsplit(".", 1)[1])
+            if isinstance(p.value, ast.Call):
+                bound = [(k_.arg, k_.value) for k_ in p.value.keywords if k_.arg]
+                for ev in p.calls():
+                    if ev.expr is p.value or unparse(ev.expr) == unparse(p.value):
+                        pos = getattr(ev.node, "_kwpos", None) or {}
+                        bound += [(q, p.value.args[i]) for q, i in pos.items() if i < len(p.value.args)]
+                for q, a in bound:
+                    nr = names_read(a)
+                    if len(nr) == 1 and None not in nr:
+                        T.setdefault(next(iter(nr)), set()).add(q)
+        both = sorted(set(W) & set(T))
+        if not both:
+            continue
+        n += 1
+        written_attrs = {a for v in W.values() for a in v}
+        read_attrs = {b for v in T.values() for b in v}
+        bad = [(nm, sorted(W[nm])[0], sorted(T[nm])[0]) for nm in both if len(W[nm]) == 1 and len(T[nm]) == 1 and W[nm] != T[nm] and (next(iter(T[nm])) in written_attrs or next(iter(W[nm])) in read_attrs)]
+        if bad:
+            nm, a, b = bad[0]
+            res.violation("C11.R13", w, w.node, f"{ci.name}.to_hdf stores `{me}.{a}` under the name '{nm}', from which from_hdf fills `{b}`: the component comes back in another place, a file just written is read back as a different object", key_extra=f"hdf-member-cross-wired-{ci.name}-{nm}")
+        else:
+            res.ok("C11.R13", res.site(w, "member names"), f"{len(both)} member(s) {both} are written from and read into the same component")
+    if n < 3:
+        raise AnalysisError(f"C11.R13: only {n} classes whose HDF5 writer and reader could be matched member by member, minimum 3")
+
+
 RULES = [
     ("C11.R1", rule_r1, QUICK),
     ("C11.R2", rule_r2, QUICK),
@@ -1024,4 +1145,5 @@ RULES = [
     ("C11.R10", rule_r10, QUICK),
     ("C11.R11", rule_r11, QUICK),
     ("C11.R12", rule_r12, QUICK),
+    ("C11.R13", rule_r13, QUICK),
 ]
